@@ -174,6 +174,8 @@ BadCacheKind(t) ==
     IF \E i \in Occ(t) \ {t.root} : t.nodes[i].st = "X" /\ HasInterior(ClosedRegion(t, i), t.dim) THEN "infeasible-mark" ELSE "witness"
 
 TotalTree(t) == \A i \in Occ(t) : ~t.nodes[i].leaf => \A sl \in 1..t.k : t.nodes[i].ch[sl] # NONE
+RECURSIVE SubtreeOf(_, _)
+SubtreeOf(t, i) == {i} \cup UNION {SubtreeOf(t, t.nodes[i].ch[sl]) : sl \in {x \in 1..Len(t.nodes[i].ch) : t.nodes[i].ch[x] # NONE}}
 RECURSIVE ThinAnc(_, _)
 \* i or one of its ancestors has a closed path region with empty interior
 ThinAnc(t, i) == ~HasInterior(ClosedRegion(t, i), t.dim) \/ (t.nodes[i].p # NONE /\ ThinAnc(t, t.nodes[i].p))
@@ -195,8 +197,10 @@ CheckEliminate(e) ==
         total == TotalTree(f)
         sh == IF total THEN "total" ELSE "partial"
         removed == Occ(f) \ Occ(h)
-        Forwarded(i) == ~f.nodes[i].leaf /\ (\A sl \in 1..f.k : f.nodes[i].ch[sl] # NONE /\ (f.nodes[i].ch[sl] \in Occ(h) \/ ThinAnc(f, f.nodes[i].ch[sl])))
-                        /\ Cardinality({sl \in 1..f.k : f.nodes[i].ch[sl] \in Occ(h)}) = 1
+        \* a child "survives" if some node of its subtree is still in the result (the child itself may have been forwarded too)
+        Survives(c) == SubtreeOf(f, c) \cap Occ(h) # {}
+        Forwarded(i) == ~f.nodes[i].leaf /\ (\A sl \in 1..f.k : f.nodes[i].ch[sl] # NONE /\ (Survives(f.nodes[i].ch[sl]) \/ ThinAnc(f, f.nodes[i].ch[sl])))
+                        /\ Cardinality({sl \in 1..f.k : Survives(f.nodes[i].ch[sl])}) = 1
     IN
     /\ V("C03", e, PwlEqUpToThin(P0(h), P0(f), d), "infeasible_elimination changed the value or definedness on a region with non-empty interior", "law/" \o sh)
     /\ V("C03", e, \A i \in removed : ThinAnc(f, i) \/ Forwarded(i),
